@@ -27,7 +27,7 @@ Trace == ndJsonDeserialize(TraceFile)
 
 VARIABLES l,         \* next trace line
           building   \* id of the context whose constructor is running, or 0
-vars == <<outer, data, l, building>>
+vars == <<outer, data, wrapped, l, building>>
 
 Ev == Trace[l]
 IsEvent(e) == l <= Len(Trace) /\ Ev.op = e /\ l' = l + 1
@@ -35,7 +35,7 @@ IsEvent(e) == l <= Len(Trace) /\ Ev.op = e /\ l' = l + 1
 PairsToMap(ps) == [k \in {ps[i][1] : i \in 1..Len(ps)} |-> (CHOOSE i \in 1..Len(ps) : ps[i][1] = k) ]
 MapOf(ps) == LET idx == PairsToMap(ps) IN [k \in DOMAIN idx |-> ps[idx[k]][2]]
 
-TraceInit == outer = <<>> /\ data = <<>> /\ l = 1 /\ building = 0
+TraceInit == outer = <<>> /\ data = <<>> /\ wrapped = EmptyMap /\ l = 1 /\ building = 0
 
 TNew == /\ IsEvent("new") /\ building = 0
         /\ Ev.id = N + 1 /\ Ev.o \in 0..N
@@ -70,7 +70,7 @@ TValue == /\ IsEvent("value") /\ Ev.c \in 1..N
           /\ UNCHANGED <<cvars, building>>
 
 TReset == /\ IsEvent("reset") /\ building = 0
-          /\ outer' = <<>> /\ data' = <<>> /\ UNCHANGED building
+          /\ outer' = <<>> /\ data' = <<>> /\ UNCHANGED <<building, wrapped>>
 
 TraceNext == TNew \/ TInject \/ TNewDone \/ TAdopt \/ TSet \/ TValue \/ TReset
 TraceSpec == TraceInit /\ [][TraceNext]_vars
